@@ -114,7 +114,7 @@ structure World where
   atticExpendable : List Str
   deriving Repr
 
-def workspace : Str := "workspace".toList
+def workspace : Str := Consts.C16.workspaceName
 
 /-- `allPaths`: the known directories of the selected mode with their `isSourceDir` flag -/
 def allPaths (o : Opts) (w : World) : List (Str × Bool) :=
